@@ -50,7 +50,7 @@ CONSTANTS Ids = {%s}
   KindsOn = {""" + ALLK + """}
 CHECK_DEADLOCK FALSE
 """
-NIDS = 40
+NIDS = 24
 WORKER = os.path.join(core.VERIF, "harness", "life_ltworker.py")
 VARIANTS = [("nofieldclear", "1,2", '"P","W","A","T"'), ("gcnonenoop", "1,2", '"P","W"'),
             ("structnoref", "1,2", '"S","W"'), ("doublerelease", "1,2,3", '"E","V"')]
@@ -354,10 +354,10 @@ def run(ctx):
     init, out = design_level(ctx, quick)
     phase("tlc-design")
     rng = ctx.rng
-    paths, nedges, ncov = graph_paths(init, out, rng, 300 if quick else 3000, 2500 if quick else None)
+    paths, nedges, ncov = graph_paths(init, out, rng, 200 if quick else 3000, 1500 if quick else None)
     hist = [ops_from_path(p, rng) for p in paths]
     meta = ["model-path"] * len(hist)
-    for _ in range(150 if quick else 1500):
+    for _ in range(100 if quick else 1500):
         hist.append(random_history(rng, rng.randrange(40, 200), NIDS))
         meta.append("random-history")
     ctx.cov["graph"] = {"transitions": nedges, "transitions_replayed": ncov}
@@ -457,7 +457,7 @@ META = {
             "dealloc / finalize / release code, and checks that it refines the property machine (destructors "
             "and allocator frees exactly once, never after gc(None), only when due, release idempotent, "
             "exporter locked and alive exactly while a view exists, struct memory valid, handles); walks and a "
-            "transition cover of the explored graph and random histories of up to 200 operations on 40 objects "
+            "transition cover of the explored graph and random histories of up to 200 operations on 24 objects "
             "are executed on real cdata objects, and TLC validates every recorded history against the "
             "property machine and against the implementation model.",
     "note": "Trusted: TLC, CPython's gc module (gc.disable() + explicit collections), weak references as the "
